@@ -489,13 +489,13 @@ func (tr *FnTrans) bitGeneric(op token.Token, a, b string, width uint) string {
 		var r string
 		switch op {
 		case token.AND:
-			r = "(* " + ba + " " + bb + ")"
+			r = "(ite (= (+ " + ba + " " + bb + ") 2) 1 0)"
 		case token.OR:
-			r = "(- (+ " + ba + " " + bb + ") (* " + ba + " " + bb + "))"
+			r = "(ite (>= (+ " + ba + " " + bb + ") 1) 1 0)"
 		case token.XOR:
-			r = "(- (+ " + ba + " " + bb + ") (* 2 (* " + ba + " " + bb + ")))"
+			r = "(ite (= (+ " + ba + " " + bb + ") 1) 1 0)"
 		case token.AND_NOT:
-			r = "(* " + ba + " (- 1 " + bb + "))"
+			r = "(ite (and (= " + ba + " 1) (= " + bb + " 0)) 1 0)"
 		}
 		ts = append(ts, "(* "+pow2(k).String()+" "+r+")")
 	}
@@ -583,15 +583,33 @@ func (tr *FnTrans) binop(x *ssa.BinOp) {
 			panic(vcErrorf("unsupported shift (non-constant amount or signed operand)"))
 		}
 		tr.define(x, Val{K: KInt, T: "(mod (* " + a.T + " " + pow2(uint(c.Int64())).String() + ") " + pow2(bits).String() + ")", Typ: t})
+		if bits < 64 {
+			tr.setMask(x, (tr.maskOf(x.X)<<uint(c.Int64()))&((uint64(1)<<bits)-1))
+		}
 	case token.SHR:
 		c, ok := constOf(x.Y)
 		if !ok || signed {
 			panic(vcErrorf("unsupported shift (non-constant amount or signed operand)"))
 		}
 		tr.define(x, Val{K: KInt, T: "(div " + a.T + " " + pow2(uint(c.Int64())).String() + ")", Typ: t})
+		tr.setMask(x, tr.maskOf(x.X)>>uint(c.Int64()))
 	case token.AND, token.OR, token.XOR, token.AND_NOT:
 		if signed || bits > 16 {
 			panic(vcErrorf("bit operation on %s is not supported", t))
+		}
+		ma, mb := tr.maskOf(x.X), tr.maskOf(x.Y)
+		switch x.Op {
+		case token.AND:
+			tr.setMask(x, ma&mb)
+		case token.OR, token.XOR:
+			tr.setMask(x, ma|mb)
+		default:
+			tr.setMask(x, ma)
+		}
+		if (x.Op == token.OR || x.Op == token.XOR) && ma&mb == 0 {
+			// no common possibly-set bit: or = xor = sum
+			tr.define(x, Val{K: KInt, T: "(+ " + a.T + " " + b.T + ")", Typ: t})
+			return
 		}
 		if c, ok := constOf(x.Y); ok && x.Op == token.AND {
 			tr.define(x, Val{K: KInt, T: tr.bitAnd(a.T, c, bits), Typ: t})
@@ -890,4 +908,26 @@ func (tr *FnTrans) rangeNext(x *ssa.Next) {
 	vc.fact(sEq(nd, sIte(ok, sSto(done, key, "true"), done)), "")
 	tr.cur.m[rs.done] = nd
 	tr.vals[x] = Val{K: KTuple, Fields: []Val{{K: KBool, T: ok, Typ: types.Typ[types.Bool]}, kv, vv}}
+}
+
+// maskOf: statically known set of bits that may be 1 in an unsigned value.
+func (tr *FnTrans) maskOf(v ssa.Value) uint64 {
+	if c, ok := constOf(v); ok && c.IsUint64() {
+		return c.Uint64()
+	}
+	if m, ok := tr.masks[v]; ok {
+		return m
+	}
+	_, _, bits, _, ok := intRange(v.Type())
+	if !ok || bits >= 64 {
+		return ^uint64(0)
+	}
+	return (uint64(1) << bits) - 1
+}
+
+func (tr *FnTrans) setMask(v ssa.Value, m uint64) {
+	if tr.masks == nil {
+		tr.masks = map[ssa.Value]uint64{}
+	}
+	tr.masks[v] = m
 }
